@@ -4,7 +4,7 @@
     boolean side conditions.  The shipped table enters only in
     Proofs/C02_table.v and Proofs/C03_table.v, where those side conditions are
     computed.  This file must not mention the generated tables. *)
-From Coq Require Import List Bool NArith Arith ZArith String Lia Permutation.
+From Coq Require Import List Bool NArith Arith ZArith String Lia Permutation Btauto.
 From PSA Require Import Base.Str Model.Api Model.Pod Model.Checks Model.Registry Model.Shipped
      Spec.P05 Spec.PSS Spec.P02 Spec.P04
      Proofs.StrFacts Proofs.RegistryFacts Proofs.ChecksFacts.
@@ -194,4 +194,302 @@ Proof.
   destruct (api_valid p) eqn:Hv; [|reflexivity]. cbn [negb orb].
   destruct (eval_allowed al relax cs Restricted v p) eqn:HR; [|reflexivity]. cbn [negb orb].
   exact (levels_ordered_known_pairs al relax cs v p W M Hn Hp Hv HR).
+Qed.
+
+(** * C02, table-parametric *)
+
+(** ** the conjunction over the resolved names only depends on the multiset of names *)
+
+Lemma forallb_perm {A} (f : A -> bool) (l l' : list A) :
+  Permutation l l' -> forallb f l = forallb f l'.
+Proof.
+  induction 1 as [|x l l' _ IH|x y l|l l' l'' _ IH1 _ IH2]; cbn [forallb].
+  - reflexivity.
+  - rewrite IH. reflexivity.
+  - destruct (f x), (f y); reflexivity.
+  - rewrite IH1. exact IH2.
+Qed.
+
+Lemma same_names_perm a b : same_names a b = true -> Permutation a b.
+Proof.
+  unfold same_names. intros H. apply list_eqb_string_eq in H.
+  apply perm_trans with (ssort a); [apply Permutation_sym, ssort_perm|].
+  rewrite H. apply ssort_perm.
+Qed.
+
+Lemma table_ok_inv rn mx : table_ok rn mx = true ->
+  mx = V 1 32 /\
+  forall m, (m <= 32)%N ->
+    same_names (rn Baseline (V 1 m)) (pss_baseline_revisions m) = true /\
+    same_names (rn Restricted (V 1 m)) (pss_restricted_revisions m) = true.
+Proof.
+  unfold table_ok. intros H. apply andb_true_iff in H. destruct H as [Hv H].
+  apply version_eqb_eq in Hv. split; [exact Hv|]. intros m Hm.
+  rewrite forallb_forall in H. specialize (H (N.to_nat m)). cbv zeta in H.
+  rewrite N2Nat.id in H. apply andb_true_iff. apply H. apply in_seq. lia.
+Qed.
+
+(** ** every version the standard speaks about resolves like its effective minor *)
+
+Lemma resolve_effective (cs : list named_check) l v m :
+  max_version cs = V 1 32 -> effective_minor v = Some m ->
+  (m <= 32)%N /\ resolve cs l v = resolve cs l (V 1 m).
+Proof.
+  intros Emx Hm. unfold resolve. cbv zeta. rewrite Emx.
+  destruct v as [|ma mi].
+  - injection Hm as <-. split; [unfold newest_published; lia|]. destruct l; reflexivity.
+  - destruct ma as [|[q|q|]]; try discriminate Hm.
+    injection Hm as <-. unfold newest_published. split; [apply N.le_min_r|].
+    rewrite !older_V1.
+    destruct (N.ltb_spec 32 mi) as [Hlt|Hge].
+    + rewrite N.min_r by lia. destruct l; reflexivity.
+    + rewrite N.min_l by lia. destruct (N.ltb_spec 32 mi); [lia|]. reflexivity.
+Qed.
+
+(** ** each named revision decides its row *)
+
+Lemma allowed_by_spec al relax p fn f g :
+  lists_ok al = true -> relaxed_for relax p = false ->
+  lookup_check fn = Some f -> revision_spec fn = Some g ->
+  allowed_by al relax p fn = g p.
+Proof.
+  intros Hl Hr Hf Hg. unfold allowed_by, run_check. rewrite Hf.
+  exact (revisions_decide_standard al fn f g relax p Hl Hf Hg Hr).
+Qed.
+
+(** ** the version history of the standard's rows has finitely many steps *)
+
+Ltac split_leb k m :=
+  let E := fresh "E" in
+  destruct (N.leb k m) eqn:E; [apply N.leb_le in E | apply N.leb_gt in E]; try (exfalso; lia).
+
+Lemma pss_selinux_types_th m :
+  pss_selinux_types m = pss_selinux_types (if N.leb 31 m then 31 else 0).
+Proof. unfold pss_selinux_types. split_leb 31%N m; reflexivity. Qed.
+
+Lemma ok_seLinux_th m p : ok_seLinux m p = ok_seLinux (if N.leb 31 m then 31 else 0) p.
+Proof.
+  unfold ok_seLinux, ok_selinux_opts. rewrite <- (pss_selinux_types_th m). reflexivity.
+Qed.
+
+Lemma ok_seccomp_baseline_th m p :
+  ok_seccomp_baseline m p = ok_seccomp_baseline (if N.leb 19 m then 19 else 0) p.
+Proof.
+  unfold ok_seccomp_baseline. rewrite !N.ltb_antisym. split_leb 19%N m; reflexivity.
+Qed.
+
+Lemma pss_sysctls_th m :
+  pss_sysctls m = pss_sysctls (if N.leb 32 m then 32 else if N.leb 29 m then 29
+                               else if N.leb 27 m then 27 else 0).
+Proof.
+  unfold pss_sysctls. split_leb 27%N m; split_leb 29%N m; split_leb 32%N m; reflexivity.
+Qed.
+
+Lemma ok_sysctls_th m p :
+  ok_sysctls m p = ok_sysctls (if N.leb 32 m then 32 else if N.leb 29 m then 29
+                               else if N.leb 27 m then 27 else 0) p.
+Proof. unfold ok_sysctls. rewrite <- (pss_sysctls_th m). reflexivity. Qed.
+
+Lemma ok_allowPrivilegeEscalation_th m p :
+  ok_allowPrivilegeEscalation m p =
+  if N.leb 25 m then ok_allowPrivilegeEscalation 25 p
+  else if N.leb 8 m then ok_allowPrivilegeEscalation 8 p else true.
+Proof.
+  unfold ok_allowPrivilegeEscalation, windows_exempt. rewrite !N.ltb_antisym.
+  split_leb 8%N m; split_leb 25%N m; reflexivity.
+Qed.
+
+Lemma ok_runAsUser_th m p :
+  ok_runAsUser m p = if N.leb 23 m then ok_runAsUser 23 p else true.
+Proof. unfold ok_runAsUser. rewrite !N.ltb_antisym. split_leb 23%N m; reflexivity. Qed.
+
+Lemma ok_seccomp_restricted_th m p :
+  ok_seccomp_restricted m p =
+  if N.leb 25 m then ok_seccomp_restricted 25 p
+  else if N.leb 19 m then ok_seccomp_restricted 19 p else true.
+Proof.
+  unfold ok_seccomp_restricted, windows_exempt. rewrite !N.ltb_antisym.
+  split_leb 19%N m; split_leb 25%N m; reflexivity.
+Qed.
+
+Lemma ok_capabilities_restricted_th m p :
+  ok_capabilities_restricted m p =
+  if N.leb 25 m then ok_capabilities_restricted 25 p
+  else if N.leb 22 m then ok_capabilities_restricted 22 p else true.
+Proof.
+  unfold ok_capabilities_restricted, windows_exempt. rewrite !N.ltb_antisym.
+  split_leb 22%N m; split_leb 25%N m; reflexivity.
+Qed.
+
+(** ** the rows the restricted table leaves out are implied by the rows it adds *)
+
+Lemma lists_ok_net_bind al : lists_ok al = true -> mem "NET_BIND_SERVICE" (al_caps al) = true.
+Proof.
+  intros Hl. apply lists_ok_inv in Hl. destruct Hl as [Hc _].
+  rewrite (same_set_mem _ _ Hc). reflexivity.
+Qed.
+
+Lemma ok_volumeTypes_hostPath p : one_source_per_volume p = true ->
+  ok_volumeTypes p = true -> ok_hostPath p = true.
+Proof.
+  intros H1. rewrite <- (restrictedVolumes_1_0_spec example_allowlists false p).
+  rewrite <- (hostPathVolumes_1_0_spec example_allowlists false p).
+  apply restrictedVolumes_implies_hostPath. exact H1.
+Qed.
+
+Lemma example_allowlists_ok : lists_ok example_allowlists = true.
+Proof. vm_compute. reflexivity. Qed.
+
+Lemma ok_caps_22_baseline p :
+  ok_capabilities_restricted 22 p = true -> ok_capabilities_baseline p = true.
+Proof.
+  pose proof (lists_ok_inv _ example_allowlists_ok) as [Hc _].
+  rewrite <- (capabilitiesRestricted_1_22_spec example_allowlists false p).
+  rewrite <- (capabilitiesBaseline_1_0_spec example_allowlists false p Hc).
+  apply capabilitiesRestricted_1_22_implies_baseline. reflexivity.
+Qed.
+
+Lemma ok_caps_25_baseline p : windows_no_linux_fields p = true ->
+  ok_capabilities_restricted 25 p = true -> ok_capabilities_baseline p = true.
+Proof.
+  intros Hw. pose proof (lists_ok_inv _ example_allowlists_ok) as [Hc _].
+  rewrite <- (capabilitiesRestricted_1_25_spec example_allowlists false p).
+  rewrite <- (capabilitiesBaseline_1_0_spec example_allowlists false p Hc).
+  apply capabilitiesRestricted_1_25_implies_baseline; [reflexivity|exact Hw].
+Qed.
+
+Lemma ok_seccomp_19_baseline p :
+  ok_seccomp_restricted 19 p = true -> ok_seccomp_baseline 19 p = true.
+Proof.
+  rewrite <- (seccompProfileRestricted_1_19_spec example_allowlists false p).
+  rewrite <- (seccompProfileBaseline_1_19_spec example_allowlists false p).
+  apply seccompRestricted_1_19_implies_baseline_1_19.
+Qed.
+
+Lemma ok_seccomp_25_baseline p : windows_no_linux_fields p = true ->
+  ok_seccomp_restricted 25 p = true -> ok_seccomp_baseline 19 p = true.
+Proof.
+  intros Hw.
+  rewrite <- (seccompProfileRestricted_1_25_spec example_allowlists false p).
+  rewrite <- (seccompProfileBaseline_1_19_spec example_allowlists false p).
+  apply seccompRestricted_1_25_implies_baseline_1_19. exact Hw.
+Qed.
+
+(** ** the standard's revision lists decide the standard *)
+
+(** replace every [allowed_by al relax p "name"] by the row of the standard it decides *)
+Ltac rows Hl Hr :=
+  repeat match goal with
+         | |- context [allowed_by ?al ?relax ?p ?fn] =>
+             rewrite (allowed_by_spec al relax p fn _ _ Hl Hr eq_refl eq_refl)
+         end.
+
+Ltac names_compute :=
+  match goal with
+  | |- forallb _ ?L = _ => let L' := eval vm_compute in L in change L with L'
+  end; cbn [forallb].
+
+Lemma baseline_revisions_decide al relax p m :
+  lists_ok al = true -> relaxed_for relax p = false ->
+  forallb (allowed_by al relax p) (pss_baseline_revisions m) = baseline_compliant m p.
+Proof.
+  intros Hl Hr. unfold baseline_compliant, pss_baseline_revisions.
+  rewrite (ok_seLinux_th m p), (ok_seccomp_baseline_th m p), (ok_sysctls_th m p).
+  split_leb 19%N m; split_leb 27%N m; split_leb 29%N m; split_leb 31%N m; split_leb 32%N m;
+    cbv beta iota; cbn [forallb]; rows Hl Hr; btauto.
+Qed.
+
+Lemma restricted_revisions_decide al relax p m :
+  lists_ok al = true -> relaxed_for relax p = false -> api_valid p = true ->
+  forallb (allowed_by al relax p) (pss_restricted_revisions m)
+  = baseline_compliant m p && restricted_controls m p.
+Proof.
+  intros Hl Hr Hv. destruct (api_valid_inv p Hv) as [H1 Hw].
+  unfold baseline_compliant, restricted_controls, pss_restricted_revisions, pss_baseline_revisions.
+  rewrite (ok_seLinux_th m p), (ok_seccomp_baseline_th m p), (ok_sysctls_th m p),
+    (ok_allowPrivilegeEscalation_th m p), (ok_runAsUser_th m p), (ok_seccomp_restricted_th m p),
+    (ok_capabilities_restricted_th m p).
+  split_leb 8%N m; split_leb 19%N m; split_leb 22%N m; split_leb 23%N m; split_leb 25%N m;
+    split_leb 27%N m; split_leb 29%N m; split_leb 31%N m; split_leb 32%N m;
+    cbv beta iota; names_compute; rows Hl Hr;
+    (destruct (ok_volumeTypes p) eqn:EV; [rewrite (ok_volumeTypes_hostPath p H1 EV)|]);
+    try (destruct (ok_capabilities_restricted 22 p) eqn:EC22; [rewrite (ok_caps_22_baseline p EC22)|]);
+    try (destruct (ok_capabilities_restricted 25 p) eqn:EC25; [rewrite (ok_caps_25_baseline p Hw EC25)|]);
+    try (destruct (ok_seccomp_restricted 19 p) eqn:ES19; [rewrite (ok_seccomp_19_baseline p ES19)|]);
+    try (destruct (ok_seccomp_restricted 25 p) eqn:ES25; [rewrite (ok_seccomp_25_baseline p Hw ES25)|]);
+    btauto.
+Qed.
+
+(** ** C02: the evaluator decides the standard, for any table naming the standard's revisions *)
+
+Theorem standard_generic : forall (al : allowlists) (cs : list named_check) (relax : bool)
+                                  (l : level) (v : version) (m : N) (p : pod),
+  lists_ok al = true ->
+  table_ok (fun l v => map (fun x => vc_fn (snd x)) (resolve cs l v)) (max_version cs) = true ->
+  api_valid p = true -> relaxed_for relax p = false -> effective_minor v = Some m ->
+  eval_allowed al relax cs l v p = compliant l m p.
+Proof.
+  intros al cs relax l v m p Hl Ht Hv Hr Hm.
+  destruct (table_ok_inv _ _ Ht) as [Emx Hnames].
+  destruct (resolve_effective cs l v m Emx Hm) as [Hle Hres].
+  destruct (Hnames m Hle) as [Hb Hrs].
+  rewrite eval_allowed_names, Hres.
+  destruct l.
+  - reflexivity.
+  - rewrite (forallb_perm _ _ _ (same_names_perm _ _ Hb)).
+    exact (baseline_revisions_decide al relax p m Hl Hr).
+  - rewrite (forallb_perm _ _ _ (same_names_perm _ _ Hrs)).
+    exact (restricted_revisions_decide al relax p m Hl Hr Hv).
+Qed.
+
+(** at the Baseline level no validity hypothesis is needed *)
+Theorem standard_generic_baseline : forall (al : allowlists) (cs : list named_check) (relax : bool)
+                                           (v : version) (m : N) (p : pod),
+  lists_ok al = true ->
+  table_ok (fun l v => map (fun x => vc_fn (snd x)) (resolve cs l v)) (max_version cs) = true ->
+  relaxed_for relax p = false -> effective_minor v = Some m ->
+  eval_allowed al relax cs Baseline v p = baseline_compliant m p.
+Proof.
+  intros al cs relax v m p Hl Ht Hr Hm.
+  destruct (table_ok_inv _ _ Ht) as [Emx Hnames].
+  destruct (resolve_effective cs Baseline v m Emx Hm) as [Hle Hres].
+  destruct (Hnames m Hle) as [Hb _].
+  rewrite eval_allowed_names, Hres, (forallb_perm _ _ _ (same_names_perm _ _ Hb)).
+  exact (baseline_revisions_decide al relax p m Hl Hr).
+Qed.
+
+(** ** P_02 on the model's own observations *)
+
+Lemma P02_eval_generic al (cs : list named_check) relax l v p :
+  lists_ok al = true ->
+  table_ok (fun l v => map (fun x => vc_fn (snd x)) (resolve cs l v)) (max_version cs) = true ->
+  P02_eval relax l v p (eval_allowed al relax cs l v p) = true.
+Proof.
+  intros Hl Ht. unfold P02_eval.
+  destruct (api_valid p) eqn:Hv; [|reflexivity].
+  destruct (relaxed_for relax p) eqn:Hr; [reflexivity|]. cbn [negb orb].
+  destruct (effective_minor v) as [m|] eqn:Hm; [|reflexivity].
+  rewrite (standard_generic al cs relax l v m p Hl Ht Hv Hr Hm). apply eqb_reflx.
+Qed.
+
+(** the rows of the standard's transcription are exactly the dictionary's names *)
+Lemma revision_spec_bound fn g : revision_spec fn = Some g -> exists f, lookup_check fn = Some f.
+Proof.
+  unfold revision_spec. cbv zeta.
+  repeat match goal with
+         | |- (if String.eqb fn ?s then _ else _) = _ -> _ =>
+             destruct (String.eqb_spec fn s) as [->|_]; [intros _; eexists; reflexivity|]
+         end.
+  discriminate.
+Qed.
+
+Lemma P02_check_generic al relax fn p : lists_ok al = true ->
+  P02_check relax fn p (cr_allowed (run_check al relax fn p)) = true.
+Proof.
+  intros Hl. unfold P02_check.
+  destruct (relaxed_for relax p) eqn:Hr; [reflexivity|].
+  destruct (revision_spec fn) as [g|] eqn:Hg; [|reflexivity].
+  destruct (revision_spec_bound fn g Hg) as [f Hf].
+  change (cr_allowed (run_check al relax fn p)) with (allowed_by al relax p fn).
+  rewrite (allowed_by_spec al relax p fn f g Hl Hr Hf Hg). apply eqb_reflx.
 Qed.
